@@ -41,10 +41,14 @@ def split(g):
         return ['(=> %s %s)'%(a[1],x) for x in split(a[2])]
     return [g]
 parts=split(goal)
+import os
+ONLY=os.environ.get('ONLY')
 for i,p in enumerate(parts):
+    if ONLY and str(i)!=ONLY: continue
+    if ONLY: open('/tmp/sp_%s.smt2'%ONLY,'w').write('\n'.join(lines[:-2])+'\n(assert (not '+p+'))\n(check-sat)\n')
     open('/tmp/sp.smt2','w').write('\n'.join(lines[:-2])+'\n(assert (not '+p+'))\n(check-sat)\n')
     res=[]
-    for sv in (['z3-new','-T:'+T,'/tmp/sp.smt2'],['z3','-T:'+T,'/tmp/sp.smt2']):
+    for sv in (['z3-new','-T:'+T,'/tmp/sp.smt2'],['z3','-T:'+T,'/tmp/sp.smt2'],['cvc5','--tlimit='+T+'000','--full-saturate-quant','/tmp/sp.smt2'],['z3-new','-T:'+T,'sat.euf=true','/tmp/sp.smt2']):
         out=subprocess.run(sv,capture_output=True,text=True).stdout
         r=[l for l in out.split('\n') if l.strip() in('sat','unsat','unknown','timeout')]
         res.append(r[0] if r else out[:80])
